@@ -887,13 +887,29 @@ func c09LeaveOnClose(p *load.Program, r *oblig.Report) {
 	cgc := p.Func("", "(*ConsumerGroup).Close")
 	if cgc != nil {
 		onceClose, waits := false, false
-		an.EachInstrDeep(cgc, func(_ *ssa.Function, ins ssa.Instruction) {
+		isOnceDo := func(f *ssa.Function) bool { return an.ShortFunc(f) == "(*sync.Once).Do" }
+		scan := func(_ *ssa.Function, ins ssa.Instruction) {
 			if call, ok := ins.(*ssa.Call); ok {
 				if b, ok := call.Call.Value.(*ssa.Builtin); ok && b.Name() == "close" && strings.HasSuffix(argDesc(call.Call.Args[0]), ".done") {
 					onceClose = true
 				}
 				if f := call.Call.StaticCallee(); f != nil && an.ShortFunc(f) == "(*sync.WaitGroup).Wait" {
 					waits = true
+				}
+			}
+		}
+		an.EachInstrDeep(cgc, scan)
+		// closeOnce.Do(cg.signalDone): the body is a method handed over as a method value and called from nowhere else
+		an.EachInstr(cgc, func(ins ssa.Instruction) {
+			call, ok := ins.(*ssa.Call)
+			if !ok || call.Call.StaticCallee() == nil || !isOnceDo(call.Call.StaticCallee()) {
+				return
+			}
+			for _, a := range call.Call.Args {
+				if mc, isMC := a.(*ssa.MakeClosure); isMC {
+					if w, isF := mc.Fn.(*ssa.Function); isF && an.Unbound(w) != w && handedOnlyTo(an.Unbound(w), isOnceDo) {
+						an.EachInstrDeep(an.Unbound(w), scan)
+					}
 				}
 			}
 		})
